@@ -6,6 +6,14 @@ import os
 VERIF = os.path.dirname(os.path.dirname(os.path.abspath(__file__)))
 
 CLAIMED = {
+    "C03": dict(cat="translation_validation", design="§5 C03", engine="expander",
+                text="Output validation of generator runs: the real generator (cglue-gen linked as a library into /verif/expander) is executed on ~400 (quick) / ~1000 (thorough) definition cases over the bounded grammar; every output is compiled as plain source with improper_ctypes_definitions/improper_ctypes denied, together with by-value and by-reference extern \"C\" probes of every opaque object/group type and every library wrapper type. A canary proves the lint is alive in the same build. The judgement is the compiler's (static); the executions and their validation are ours.",
+                note="Trusts rustc's FFI-safety lints; generic container parameters are opaque to the lint inside generic wrappers (covered by concrete probes).",
+                tech="runtime monitoring of generator executions: per-output validation by the compiler's FFI lint"),
+    "C04": dict(cat="exploration", design="§5 C04", engine="glue",
+                text="Live vtables, objects and groups are read word by word (the foreign caller's view) and compared with expectations computed by the generator of the probes (declaration order, own name sort, enabled sets); repeated on nightly -Zrandomize-layout builds; the code generator is run in fresh processes and must describe identical structs.",
+                note="Trusts size_of/align_of and pointer-sized word reads of repr(C) objects.",
+                tech="runtime monitoring: raw-word probes of live objects + repeated generator executions"),
     "C01": dict(cat="exploration", design="§5 C01", engine="glue",
                 text="Differential runtime monitoring of generated glue: a generated corpus of traits (one per argument/return shape, multi-method, attribute, consuming, int_result traits) is compiled with the real macros; the same generic driver runs seeded call histories on the opaque object (Box/Mut/Ref/CArcSome, with/without context) and directly on the implementor, comparing return digests, the implementor's event log and every instance state after each call. Native, Miri (by-ref subset), ASan.",
                 note="Trusts the recording implementor and digest functions in /verif/gluert; grammar limited to shapes cglue accepts (calibrated on the unchanged tree).",
@@ -87,6 +95,8 @@ def main():
                    baseline_off_cmd="cd /repo && cargo test --workspace --no-fail-fast --offline",
                    source_commits=[], add_only=True),
         engines=[
+            dict(name="expander", path="expander/", serves_properties=["C03", "C04"],
+                 kind_free_text="binary linking cglue-gen as a library: runs the real code generator on definition files and prints the expansion"),
             dict(name="glue", path="glue/", serves_properties=["C01", "C02", "C06", "C07", "C08", "C13"],
                  kind_free_text="python generators of Rust programs using the real cglue macros (trait corpus, lifecycle programs) + gluert support crate; built and run natively, under Miri and ASan"),
             dict(name="rt", path="rt/", serves_properties=["C10", "C11", "C12", "C13", "C14", "C15", "C19"],
